@@ -54,12 +54,12 @@ def run(tier, seed):
                                                                    ("cancel_mix", {"VRT_KIND": 3, "VRT_OMIT": 0}, 50, 500)], tier, seed)
     for k in ("traces_validated_against_impl", "lockstep_model_steps"):
         tie[k] = tie.get(k, 0) + tie2.get(k, 0) + tie3.get(k, 0)
-    specs = [("refcount_cv", {}, 400, 6000), ("refcount_cv", {"VRT_SCRIPT": 0}, 1500, 30000), ("refcount", {}, 3000, 60000), ("refcount", {"VRT_RMODE": 1}, 1000, 20000), ("refcount", {"VRT_MUWAIT": 1}, 3000, 60000), ("refcount", {"VRT_MUWAIT": 1, "VRT_PLAINPM": 30}, 1500, 30000),
+    specs = [("mix_all", {}, 2000, 40000), ("mix_all", {"VRT_DEBUGGER": 1, "VRT_RACE": 0}, 600, 10000), ("refcount_cv", {}, 400, 6000), ("refcount_cv", {"VRT_SCRIPT": 0}, 1500, 30000), ("refcount", {}, 3000, 60000), ("refcount", {"VRT_RMODE": 1}, 1000, 20000), ("refcount", {"VRT_MUWAIT": 1}, 3000, 60000), ("refcount", {"VRT_MUWAIT": 1, "VRT_PLAINPM": 30}, 1500, 30000),
              ("waitn_mix", {"VRT_PLAINPM": 40}, 2000, 60000), ("waitn_mix", {"VRT_AIM": 60}, 4000, 60000), ("waitn_mix", {"VRT_AIM": 60, "VRT_KIND": 1}, 4000, 60000),
              ("waitn_mix", {"VRT_AIM": 60, "VRT_KIND": 2}, 2000, 30000), ("cancel_mix", {"VRT_AIM": 60}, 1500, 30000), ("cv_mix", {"VRT_MODE": 3, "VRT_PLAINPM": 40}, 1000, 20000), ("waitn_mix", {}, 3000, 60000),
              ("cv_mix", {"VRT_MODE": 0}, 1000, 20000), ("note_mix", {"VRT_FAMILY": 1}, 800, 15000)]
     cov = scen_common.run_scenarios(res, specs, tier, seed, scen_common.MEMORY | scen_common.CRASHES)
-    cov["rule"] = ("refcount_cv: the write-mode pattern with a reader round that waits on a cv, a non-user in nsync_wait_n on that cv and a broadcast under a read lock (F15 shape; scripted chooser and random schedules); refcount: 2..4 users of a malloc'ed {mutex, refs} run lock; last = --refs == 0; unlock; if last free (with extra lock/rlock "
+    cov["rule"] = ("mix_all: every kind of operation (lock, rlock, try-locks, timed mu_wait and cv waits in both modes, nsync_wait_n with and without the mutex, wake-ups under the write lock / a read lock / no lock, debug state) mixed at random on one malloc'ed mutex, ended by the write-mode refcount pattern; refcount_cv: the write-mode pattern with a reader round that waits on a cv, a non-user in nsync_wait_n on that cv and a broadcast under a read lock (F15 shape; scripted chooser and random schedules); refcount: 2..4 users of a malloc'ed {mutex, refs} run lock; last = --refs == 0; unlock; if last free (with extra lock/rlock "
                    "traffic so queues form); waitn_mix / cv_mix / note_mix: wakers against nsync_wait_n and cancellable waits whose deadline "
                    "or other objects can end the wait at any moment, every object made ready again after the call returned; "
                    "non-trivial = runs with semaphore sleeps")
